@@ -1031,7 +1031,9 @@ func zstdDeclared(in []byte, bound uint64) string {
 // zstdKey names an alloc/cpu violation; when the input carries a zstd frame declaring an oversized decoded
 // length the violation is attributed to that (known) library pre-allocation instead of the decoder itself.
 func zstdKey(name, what string, in []byte) string {
-	if zstdDeclared(in, uint64(64<<20)+64*uint64(len(in)+8193)) != "" {
+	// a frame that declares 32 MiB or more explains an allocation above the 64 MiB budget (the library
+	// allocates the declared size, the decoder around it a copy)
+	if zstdDeclared(in, uint64(32<<20)) != "" {
 		return "hostile:zstd-declared-size:" + name + ":" + what
 	}
 	return "hostile:" + name + ":" + what
